@@ -6,7 +6,8 @@
       each).  Locations: `m<off>` Map<G> at word `off`, `c<off>` Map<const G>, `v<j>` value object j.
       Paths: `-` or a dot chain `part1.so3`, `r3k2`, `r3_v` ….
       Ops:  I loc path | C loc path n w×n | A dst src | K dst src | M loc path n w×n | ML dst src
-            | P loc path n w×n | X dst src
+            | P loc path n w×n | X dst src | R dst src path | RL dst src path
+            (R / RL: coefficients / log() of the sub-part read through the CONST accessor chain → first words of dst)
       Reply: the full state buffer after EACH op (nops × (N + NV·R) words).
   mem_wsets <G> <prec> <N> <NV> <op tokens …>   → `off len` of the words each op may write
   mem_cast <G> <prec> <w × R>     → R words of the OTHER precision (`cast<NewScalar>()`)
@@ -105,24 +106,30 @@ partial def parseOps (N R : Nat) (c : Cur) (acc : Array Op) : Except String (Arr
   | "X" =>
     let (d, c) ← c.loc N R; let (s, c) ← c.loc N R
     parseOps N R c (acc.push (.castRt d s))
+  | "R" =>
+    let (d, c) ← c.loc N R; let (s, c) ← c.loc N R; let (p, c) ← c.path
+    parseOps N R c (acc.push (.readSub d s p))
+  | "RL" =>
+    let (d, c) ← c.loc N R; let (s, c) ← c.loc N R; let (p, c) ← c.path
+    parseOps N R c (acc.push (.readLog d s p))
   | _ => .error s!"script: unknown op {t}"
 
 /-- static checks the C++ type system / asserts make: targets resolve, are writable, fit -/
 def checkOp (d : GDesc) (size : Nat) (op : Op) : Except String Unit := do
-  match resolve d op.dst.1 op.dst.2 with
+  if !op.dst.1.writable then .error "script: write through a const view"
+  match op.target d with
   | none => .error "script: accessor path does not exist for this group"
   | some t =>
-    if !t.writable then .error "script: write through a const view"
-    else if t.off + t.len > size then .error "script: target outside the buffer"
-    else
-      match op.src with
-      | some s => if s.off + repSize d > size then .error "script: source outside the buffer" else pure ()
-      | none => pure ()
-      match op with
-      | .setCoeffs _ _ ws => if ws.length ≠ t.len then .error "script: literal size" else pure ()
-      | .mulLit _ _ ws => if ws.length ≠ t.len then .error "script: literal size" else pure ()
-      | .plusLit _ _ a => if a.length ≠ dofSize t.desc then .error "script: tangent size" else pure ()
-      | _ => pure ()
+    if t.off + t.len > size then .error "script: target outside the buffer"
+    match op.src, op.srcRange d with
+    | some _, none => .error "script: source accessor path does not exist for this group"
+    | _, some r => if r.1 + r.2 > size then .error "script: source outside the buffer" else pure ()
+    | none, none => pure ()
+    match op with
+    | .setCoeffs _ _ ws => if ws.length ≠ t.len then .error "script: literal size" else pure ()
+    | .mulLit _ _ ws => if ws.length ≠ t.len then .error "script: literal size" else pure ()
+    | .plusLit _ _ a => if a.length ≠ dofSize t.desc then .error "script: tangent size" else pure ()
+    | _ => pure ()
 
 def hexW (prec : String) (w : Word) : String := if prec == "f64" then toHexN w 16 else toHexN w 8
 
